@@ -138,9 +138,9 @@ Theorem xsub_ledger_balanced : forall mq_fixed rs_fixed,
   ledger_ok view_xsub (XsubModel.xsub_step mq_fixed rs_fixed) XsubModel.xsub_init OwnPubSub.xsub_op_ok OwnPubSub.xsub_close_script.
 Proof. exact xsub_ledger_ok. Qed.
 Print Assumptions xsub_ledger_balanced.
-(* PAIR0, PAIR1 cooked and raw (k), with and without the two repairs of pair.c (fx, fs) *)
-Theorem pair_ledger_balanced : forall k fx fs,
-  ledger_ok (VPair.view k) (PairGuard.pair_step_g k fx fs) PairModel.pair_init OwnPairBus.pair_ok OwnPairBus.pair_close_script.
+(* PAIR0, PAIR1 cooked and raw (k), with and without the three repairs of pair.c (fx, fr, fs) *)
+Theorem pair_ledger_balanced : forall k fx fr fs,
+  ledger_ok (VPair.view k) (PairGuard.pair_step_g k fx fr fs) PairModel.pair_init OwnPairBus.pair_ok OwnPairBus.pair_close_script.
 Proof. exact pair_ledger_ok. Qed.
 Print Assumptions pair_ledger_balanced.
 (* BUS cooked and raw, both forms of bus0_sock_send (fixed) and both orders of its first statements (keep) *)
